@@ -18,8 +18,8 @@ META = {
 }
 META["text"] = (
     "Proved in Coq over the reals about the model Model/Energy.v: C08_kinetic - for every size, every lower-triangular CSR structure (any number/order/repetition of entries with column < row) and every velocity, "
-    "the value mj_energyVel reports (0.5 * dot(mju_mulSymVecSparse(M, qvel), qvel)) equals 1/2 sum_i (M_ii v_i^2 + 2 sum_{(j,val) in row i} val v_j v_i), i.e. one half of the quadratic form v'Mv of the symmetric matrix whose lower triangle the engine stores "
-    "(proved through the in-place update loop of mju_mulSymVecSparse; the identification of that sum with a dense double sum is not proved). "
+    "the value mj_energyVel reports (0.5 * dot(mju_mulSymVecSparse(M, qvel), qvel)) equals 1/2 sum_i sum_j v_i M_ij v_j for the symmetric dense matrix M whose diagonal and lower triangle are the stored entries (repeated columns summed) and whose upper triangle is the mirror image, "
+    "equivalently 1/2 sum_i (M_ii v_i^2 + 2 sum_{(j,val) in row i} val v_j v_i) (proved through the in-place update loop of mju_mulSymVecSparse, which is correct only because stored columns are smaller than their row; that mj_crb fills M with the joint-space inertia is NOT part of the theorem: oracle). "
     "C08_spring_gradient - slide/hinge joint springs with polynomial stiffness of ANY number of terms: qfrc_spring = - d(reported spring potential)/d qpos (Coquelicot is_derive, induction over the terms); C08_tendon_spring_gradient - the same for tendon springs outside their dead band; "
     "C08_gravity_gradient - the reported gravity potential -sum m_i g.xipos_i changes at rate -m g.u when one body is translated along u. "
     "Partial: C08_spring_gradient_ball_partial - ball joints / rotational part of free joints only in the radial direction (qpos = qpos_spring rotated by t about a fixed axis, 0 < t <= pi, no mjMINVAL guard): potential = polyPotential(t), torque = -(t polyForce(t)) axis, and t polyForce(t) = d polyPotential/dt; tangential directions and the translational free-joint spring have no theorem (finite-difference oracle only). "
